@@ -18,6 +18,17 @@ impl Prompt {
     }
 
     pub fn show(&mut self) -> Result<String, dialoguer::Error> {
+        // verification hook: scripted line source (dialoguer refuses a non-tty stdin)
+        #[cfg(p2sh_verif)]
+        if std::env::var("P2SH_VERIF_REPL_STDIN").is_ok() {
+            let mut line = String::new();
+            let n = std::io::stdin().read_line(&mut line)?;
+            if n == 0 {
+                return Ok("quit".to_string());
+            }
+            return Ok(line.trim_end_matches(|c| c == '\n' || c == '\r').to_string());
+        }
+
         let mut input_lines = Vec::new();
 
         loop {
